@@ -458,12 +458,12 @@ def gen(ctx):
         if len(case["trees"]) >= 2 and case["src"] != case["dest"] and case["src_enc"] != case["dest_enc"]:
             ctx.sample({k: v for k, v in case.items() if k != "trees"}, cap=3)
     if ctx.shard < 4:
-        # a few large corpora (several hundred kB uncompressed would be pointless; ~60 sentences exceed every small buffer)
+        # a few large corpora (several hundred kB uncompressed would be pointless; 260 sentences exceed the usual 8 kB blocks twice over)
         sfmt = SRC[ctx.shard]
         big = []
-        for i in range(60):
+        for i in range(260):      # bracket files of about 20 kB: beyond the usual 8 kB buffers, tokens fall on every block boundary
             root = {"l": "VROOT", "e": "--", "lem": "--", "m": "--", "c": [
-                {"l": "S", "e": "--", "lem": "--", "m": "--", "c": [{"w": "w%d" % i, "p": "NN", "n": 1, "e": "HD", "lem": "l%d" % i, "m": "Nom.Sg"},
+                {"l": "S", "e": "--", "lem": "--", "m": "--", "c": [{"w": "Wort%d" % i * (1 + i % 3), "p": "NN", "n": 1, "e": "HD", "lem": "l%d" % i, "m": "Nom.Sg"},
                                                                      {"w": "läuft", "p": "VVFIN", "n": 2, "e": "HD", "lem": "laufen", "m": "3.Sg"}]},
                 {"w": ".", "p": "$.", "n": 3, "e": "--", "lem": "--", "m": "--"}]}
             big.append({"sid": 1000 + 3 * i, "root": root})
